@@ -156,6 +156,12 @@ impl HistElem for N64 {
     }
 }
 
+impl HistElem for i64 {
+    fn conv(v: i64) -> i64 {
+        v
+    }
+}
+
 /// an element type wider than 16 bytes (ordered lexicographically; the first component decides)
 impl HistElem for [i64; 3] {
     fn conv(v: i64) -> [i64; 3] {
@@ -167,7 +173,7 @@ impl HistElem for [i64; 3] {
 pub const POS_INF: i64 = 1 << 40;
 pub const NEG_INF: i64 = -(1 << 40);
 
-fn edges_of<T: HistElem>(e: &[i64], form: u8) -> Edges<T> {
+pub fn edges_of<T: HistElem>(e: &[i64], form: u8) -> Edges<T> {
     let vals: Vec<T> = e.iter().map(|&v| T::conv(v)).collect();
     let junk = T::conv(3);
     match form {
@@ -198,7 +204,31 @@ fn edges_of<T: HistElem>(e: &[i64], form: u8) -> Edges<T> {
 }
 
 fn grid_of_forms<T: HistElem>(edges: &[Vec<i64>], forms: &[u8]) -> Grid<T> {
-    Grid::from(edges.iter().enumerate().map(|(j, e)| Bins::new(edges_of::<T>(e, forms.get(j).copied().unwrap_or(0)))).collect::<Vec<_>>())
+    let g = Grid::from(edges.iter().enumerate().map(|(j, e)| Bins::new(edges_of::<T>(e, forms.get(j).copied().unwrap_or(0)))).collect::<Vec<_>>());
+    // form code 5..: the grid is produced by `clone_from` into an existing, larger grid (with more axes / more edges)
+    match forms.iter().copied().max().unwrap_or(0) {
+        5 => {
+            let mut big: Vec<Vec<i64>> = edges.iter().map(|e| {
+                let mut b = e.clone();
+                b.extend([1000, 1001, 1002]);
+                b
+            }).collect();
+            big.push(vec![0, 1, 2]);
+            let mut dst = Grid::from(big.iter().map(|e| Bins::new(edges_of::<T>(e, 0))).collect::<Vec<_>>());
+            dst.clone_from(&g);
+            dst
+        }
+        6 => {
+            // per-axis Bins::clone_from into Bins with more edges
+            let parts: Vec<Bins<T>> = g.projections().iter().map(|b| {
+                let mut dst = Bins::new(edges_of::<T>(&[-3000, -2000, -1000, 0, 1000, 2000, 3000, 4000], 0));
+                dst.clone_from(b);
+                dst
+            }).collect();
+            Grid::from(parts)
+        }
+        _ => g,
+    }
 }
 
 fn grid_of<T: HistElem>(edges: &[Vec<i64>]) -> Grid<T> {
